@@ -12,6 +12,18 @@ def step (u : Unit) (ws : List String) : Unit × String :=
   | ["u2q", a, b, x] => match a.toNat?, b.toNat?, x.toNat? with
     | some a, some b, some x => (u, toString (quaiToQi { quaiR := a, qiR := b } x))
     | _, _, _ => (u, "bad-op")
+  -- vol <quaiR> <qiR> <item>…: item = q:<quai> | u:<qi> | n
+  | "vol" :: a :: b :: items => match a.toNat?, b.toNat? with
+    | some a, some b =>
+      let parsed := items.mapM fun it => match it.splitOn ":" with
+        | ["q", v] => v.toNat?.map VolItem.toQi
+        | ["u", v] => v.toNat?.map VolItem.toQuai
+        | ["n"] => some VolItem.other
+        | _ => none
+      match parsed with
+      | some l => (u, toString (volume { quaiR := a, qiR := b } l))
+      | none => (u, "bad-op")
+    | _, _ => (u, "bad-op")
   | ["fmd", v] => match v.toNat? with
     | some v =>
       let l := findMinDenoms Gen.denominations v
